@@ -199,6 +199,11 @@ def entities(scn, vec, mods):
         # every participant annotated with features of every unusual but legal shape; decor = 1 + index of the route along
         # which the records were produced (fresh, rotated back by the library, reverse-complemented twice, through GenBank text, ...)
         route = gen.ROUTES[scn["decor"] - 1]
+        if route == "fresh" and any(scn.get("rot") or []):
+            # (the full set of decorations on the unrotated scenario; two spots of every flavour when combined with a rotation)
+            v = V(gen.contained(vec, "annotated-light", "vec"))
+            ms = [M(gen.contained(m, "annotated-light", "mod%d" % i)) for i, m in enumerate(mods)]
+            return v, ms
         v = V(gen.produced(vec, route, "vec"))
         ms = [M(gen.produced(m, route, "mod%d" % i)) for i, m in enumerate(mods)]
         return v, ms
